@@ -6,7 +6,7 @@ From FS Require Import lib.Str lib.Cmp model.TopN model.Criteria proofs.TopNProo
 Import ListNotations.
 
 Section C06.
-Variable numkey : str -> N.
+Variable numkey : str -> Z.
 Variable datekey : str -> Z.
 Notation le ks := (crit_le numkey datekey ks).
 
